@@ -12,6 +12,7 @@ import (
 	"github.com/libp2p/go-libp2p/core/crypto"
 	"io"
 	"math/rand"
+	"runtime"
 	"strings"
 	"time"
 
@@ -565,6 +566,43 @@ func init() {
 					}
 				}
 			}
+			// base64 damage refined to the structural positions of a CAR: an invalid character / a cut in the quantum
+			// that starts exactly at an entry boundary (possible when the boundary is a multiple of 3 bytes: three
+			// token sets of different sizes are tried)
+			if c.Fmt == "car" && c.B64 && len(c.Dmg) == 1 && c.Dmg[0].C == "b64char" {
+				for pad := 0; pad < 3; pad++ {
+					key := 100 + pad
+					ptoks, ok := tokCache[key*10+n]
+					if !ok {
+						if ptoks, err = makeTokens(newWorld(envSeed()+int64(pad), fastAlgs), n, pad*5+1); err != nil {
+							return err
+						}
+						tokCache[key*10+n] = ptoks
+					}
+					plain, err := writeContainer(ptoks, firstN(c.Order, n), "car", false, "bytes")
+					if err != nil {
+						return err
+					}
+					_, blocks, err := parseCar(plain)
+					if err != nil {
+						return err
+					}
+					enc := base64.StdEncoding.EncodeToString(plain)
+					for _, b := range blocks[:len(blocks)-1] {
+						if b.end%3 != 0 {
+							continue
+						}
+						e := b.end / 3 * 4
+						for _, bad := range []string{enc[:e] + "!" + enc[e:], enc[:e] + "!!!!", enc[:e+1], enc[:e+2], enc[:e+3], enc[:e] + "=" + enc[e:]} {
+							rep.Evaluations++
+							if rd, err := readContainer([]byte(bad), "car", true, c.RV, nil); err == nil {
+								rep.violation(map[string]any{"case": json.RawMessage(raw), "damage": "base64 text damaged in the quantum that starts at the end of an entry", "offset": e, "len": len(enc)},
+									"an error", fmt.Sprintf("%d of %d tokens", len(rd), n), "a CAR/base64 container damaged right after an entry was read as a complete container")
+							}
+						}
+					}
+				}
+			}
 			rd, rerr := readContainer(data, c.Fmt, c.B64, c.RV, nil)
 			rep.sample(map[string]any{"case": json.RawMessage(raw), "bytes": len(data), "read_error": fmt.Sprint(rerr)})
 			switch {
@@ -1064,6 +1102,9 @@ func init() {
 	drivers["streamall"] = func(seed int64, n int, emit func(any)) error {
 		w := newWorld(seed, fastAlgs)
 		rng := rand.New(rand.NewSource(seed))
+		if err := interleavedReads(w, emit); err != nil {
+			return err
+		}
 		type spec struct {
 			kind   string
 			b64    bool
@@ -1156,4 +1197,100 @@ func init() {
 		}
 		return nil
 	}
+}
+
+// gatedReader delivers its data up to stallAt, then signals `reached` and waits for `gate` before going on: the
+// scheduler gate that forces one particular interleaving of two stream reads.
+type gatedReader struct {
+	data    []byte
+	pos     int
+	stallAt int
+	reached chan struct{}
+	gate    chan struct{}
+	stalled bool
+}
+
+func (g *gatedReader) Read(p []byte) (int, error) {
+	if g.pos >= len(g.data) {
+		return 0, io.EOF
+	}
+	if !g.stalled && g.pos >= g.stallAt {
+		g.stalled = true
+		close(g.reached)
+		<-g.gate
+	}
+	n := len(p)
+	if !g.stalled && g.pos+n > g.stallAt {
+		n = g.stallAt - g.pos
+	}
+	if g.pos+n > len(g.data) {
+		n = len(g.data) - g.pos
+	}
+	copy(p, g.data[g.pos:g.pos+n])
+	g.pos += n
+	return n, nil
+}
+
+// interleavedReads: artefact A is read from a stream that stalls at a structural position; while it is stalled,
+// artefact B (another container / token of the same kind) is read completely; then A continues.
+func interleavedReads(w *world, emit func(any)) error {
+	old := runtime.GOMAXPROCS(1) // one P: a pooled object released by A is the one B picks up
+	defer runtime.GOMAXPROCS(old)
+	for _, kind := range []string{"car", "cbor", "token", "token-generic"} {
+		for _, b64 := range []bool{false, true} {
+			if b64 && strings.HasPrefix(kind, "token") {
+				continue
+			}
+			a, err := newStreamArtefact(w, kind, b64, 3, 1)
+			if err != nil {
+				return err
+			}
+			b, err := newStreamArtefact(newWorld(envSeed()+99, fastAlgs), kind, b64, 2, 7)
+			if err != nil {
+				return err
+			}
+			stalls := []int{}
+			for _, bd := range a.bounds {
+				e, _ := a.encOffset(bd)
+				stalls = append(stalls, e, e+1, e+5)
+			}
+			stalls = append(stalls, len(a.data)/2)
+			for _, st := range stalls {
+				if st <= 0 || st >= len(a.data) {
+					continue
+				}
+				for rounds := 0; rounds < 2; rounds++ {
+					g := &gatedReader{data: a.data, stallAt: st, reached: make(chan struct{}), gate: make(chan struct{})}
+					type res struct {
+						ok  bool
+						got int
+						why string
+						err error
+					}
+					done := make(chan res, 1)
+					go func() {
+						ok, got, why, err := a.read(g)
+						done <- res{ok, got, why, err}
+					}()
+					var rb res
+					select {
+					case <-g.reached:
+						ok, got, why, err := b.read(bytes.NewReader(b.data))
+						rb = res{ok, got, why, err}
+						close(g.gate)
+					case r := <-done:
+						// A finished without reaching the stall point (should not happen)
+						done <- r
+						rb = res{true, len(b.toks), "", nil}
+					}
+					ra := <-done
+					pn := func(e error) bool { return e != nil && strings.HasPrefix(e.Error(), "panic") }
+					emit(map[string]any{"ev": "Interleaved", "art": kind, "b64": b64, "stall": st, "len": len(a.data),
+						"okA": ra.ok && ra.got == len(a.toks) && ra.why == "", "okB": rb.ok && rb.got == len(b.toks) && rb.why == "",
+						"panic": pn(ra.err) || pn(rb.err), "detailA": fmt.Sprint(ra.got, ra.why, ra.err), "detailB": fmt.Sprint(rb.got, rb.why, rb.err)})
+				}
+			}
+		}
+	}
+	return nil
 }
